@@ -172,4 +172,249 @@ theorem insertAt_bisect_append {A B : List (Cand × Rat)} {m : Rat} (hB : ∀ b 
   rw [List.take_append_of_le_length hle, List.drop_append_of_le_length hle]
   simp
 
+/-! ### popping the batch from the tail and re-inserting -/
+
+/-- what the pool machine puts back for one batch entry -/
+def backOf (cfg : HACfg) (tot' : Cand → Nat) (c : Cand) : Option (Cand × Rat) :=
+  if tot' c < cfg.capOf c then some (c, cfg.quot c (tot' c)) else none
+
+theorem popLoop_spec (cfg : HACfg) (tot' : Cand → Nat) (m : Rat) :
+    ∀ (k : Nat) (A B : List (Cand × Rat)), B.length = k → (∀ b ∈ B, b.2 = m) → SortedAsc A → (∀ a ∈ A, a.2 ≤ m) →
+      (∀ b ∈ B, cfg.quot b.1 (tot' b.1) ≤ m) →
+      SortedAsc (popLoop cfg tot' k (A ++ B)) ∧
+      (popLoop cfg tot' k (A ++ B)).Perm (A ++ (B.map (·.1)).filterMap (backOf cfg tot')) := by
+  intro k
+  induction k with
+  | zero =>
+    intro A B hlen _ hsA _ _
+    have : B = [] := List.length_eq_zero_iff.mp hlen
+    subst this
+    simp only [popLoop, List.append_nil, List.map_nil, List.filterMap_nil]
+    exact ⟨hsA, List.Perm.refl _⟩
+  | succ k ih =>
+    intro A B hlen hB hsA hA hq
+    -- B = B' ++ [p]
+    obtain ⟨B', p, rfl⟩ : ∃ B' p, B = B' ++ [p] := by
+      have hne : B ≠ [] := by intro h; rw [h] at hlen; simp at hlen
+      exact ⟨B.dropLast, B.getLast hne, (List.dropLast_append_getLast hne).symm⟩
+    have hlen' : B'.length = k := by simpa using hlen
+    have hB' : ∀ b ∈ B', b.2 = m := fun b hb => hB b (List.mem_append_left _ hb)
+    have hpm : p.2 = m := hB p (List.mem_append_right _ (List.mem_singleton.mpr rfl))
+    have hq' : ∀ b ∈ B', cfg.quot b.1 (tot' b.1) ≤ m := fun b hb => hq b (List.mem_append_left _ hb)
+    have hqp : cfg.quot p.1 (tot' p.1) ≤ m := hq p (List.mem_append_right _ (List.mem_singleton.mpr rfl))
+    have hlast : (A ++ (B' ++ [p])).getLast? = some p := by
+      rw [← List.append_assoc]; simp
+    have hdrop : (A ++ (B' ++ [p])).dropLast = A ++ B' := by
+      rw [← List.append_assoc]; simp
+    unfold popLoop
+    rw [hlast]
+    simp only [hdrop]
+    by_cases hcap : tot' p.1 < cfg.capOf p.1
+    · rw [if_pos hcap]
+      have hins := insertAt_bisect_append (A := A) hB' (p.1, cfg.quot p.1 (tot' p.1)) hqp
+      simp only at hins
+      rw [hins]
+      obtain ⟨hsA', hpA'⟩ := insertAt_bisect_sorted hsA (p.1, cfg.quot p.1 (tot' p.1))
+      simp only at hsA' hpA'
+      have hA' : ∀ a ∈ insertAt A (bisectLeft A (cfg.quot p.1 (tot' p.1))) (p.1, cfg.quot p.1 (tot' p.1)), a.2 ≤ m := by
+        intro a ha
+        rcases List.mem_cons.mp (hpA'.mem_iff.mp ha) with rfl | ha'
+        · exact hqp
+        · exact hA a ha'
+      obtain ⟨hs1, hp1⟩ := ih _ B' hlen' hB' hsA' hA' hq'
+      refine ⟨hs1, hp1.trans ?_⟩
+      rw [List.map_append, List.filterMap_append]
+      simp only [List.map_cons, List.map_nil, List.filterMap_cons, List.filterMap_nil, backOf, hcap, if_true]
+      -- (x :: A) ++ F  ~  A ++ (F ++ [x])
+      have : ((p.1, cfg.quot p.1 (tot' p.1)) :: A ++ List.filterMap (backOf cfg tot') (List.map (fun x => x.1) B')).Perm
+          (A ++ (List.filterMap (backOf cfg tot') (List.map (fun x => x.1) B') ++ [(p.1, cfg.quot p.1 (tot' p.1))])) := by
+        rw [← List.append_assoc]
+        exact (List.perm_append_singleton _ _).symm
+      exact (hpA'.append_right _).trans this
+    · rw [if_neg hcap]
+      obtain ⟨hs1, hp1⟩ := ih A B' hlen' hB' hsA hA hq'
+      refine ⟨hs1, hp1.trans ?_⟩
+      rw [List.map_append, List.filterMap_append]
+      simp [backOf, hcap]
+
+/-! ### one step, the loop, the run -/
+
+theorem permState_trans {a b c : HAState} (h1 : PermState a b) (h2 : PermState b c) : PermState a c := by
+  refine ⟨h1.tot.trans h2.tot, h1.pool.trans h2.pool, h1.rem.trans h2.rem, ?_⟩
+  rcases h1.tie with ⟨ha, hb⟩ | ⟨T₁, T₂, m, ha, hb, hp⟩
+  · rcases h2.tie with ⟨hb', hc⟩ | ⟨T₂', T₃, m', hb', hc, hp'⟩
+    · exact Or.inl ⟨ha, hc⟩
+    · rw [hb] at hb'; cases hb'
+  · rcases h2.tie with ⟨hb', hc⟩ | ⟨T₂', T₃, m', hb', hc, hp'⟩
+    · rw [hb] at hb'; cases hb'
+    · rw [hb] at hb'
+      injection hb' with hb'
+      injection hb' with e1 e2
+      subst e1; subst e2
+      exact Or.inr ⟨T₁, T₃, m, ha, hc, hp.trans hp'⟩
+
+/-- the list step is the pool step on the same entries, up to the order of the pool -/
+theorem halStep_refines (cfg : HACfg) (h : CfgOK cfg) (s : HALState) (hs : SortedAsc s.lst)
+    (hq : ∀ p ∈ s.lst, p.2 = cfg.quot p.1 (s.tot p.1)) :
+    PermState (haStep cfg s.toPool) (halStep cfg s).toPool ∧ SortedAsc (halStep cfg s).lst := by
+  by_cases hnil : s.lst = []
+  · have : halStep cfg s = s := by unfold halStep; rw [if_pos hnil]
+    rw [this]
+    have hm : maxQ s.toPool.pool = none := by
+      show maxQ s.lst = none; rw [hnil]; rfl
+    have : haStep cfg s.toPool = s.toPool := by unfold haStep; rw [hm]
+    rw [this]
+    exact ⟨⟨rfl, List.Perm.refl _, rfl, by cases s.tie.isSome <;> (cases hst : s.toPool.tie <;> [exact Or.inl ⟨rfl, rfl⟩;
+      (rename_i v; exact Or.inr ⟨v.1, v.1, v.2, rfl, rfl, List.Perm.refl _⟩)])⟩, hs⟩
+  · obtain ⟨L, p, hL⟩ : ∃ L p, s.lst = L ++ [p] :=
+      ⟨s.lst.dropLast, s.lst.getLast hnil, (List.dropLast_append_getLast hnil).symm⟩
+    have hsL : SortedAsc (L ++ [p]) := hL ▸ hs
+    have hmax := sortedAsc_last_max hsL
+    have hm : maxQ s.lst = some p.2 := by
+      rw [hL]; exact maxQ_of_bound hmax ⟨p, List.mem_append_right _ (List.mem_singleton.mpr rfl), rfl⟩
+    obtain ⟨hn, hdropeq⟩ := nElect_eq hsL
+    have hsplit := sortedAsc_split hsL hmax
+    -- unfold both steps
+    have hpool : s.toPool.pool = s.lst := rfl
+    unfold halStep haStep
+    rw [if_neg hnil, hpool, hm]
+    simp only
+    have hbatchlist : (s.lst.drop (s.lst.length - nElect s.lst)).map (·.1)
+        = (s.lst.filter (fun q => decide (q.2 = p.2))).map (·.1) := by
+      rw [hL, hdropeq]
+    have hnlen : nElect s.lst = ((s.lst.filter (fun q => decide (q.2 = p.2))).map (·.1)).length := by
+      rw [hL, hn, List.length_map]
+    rw [hbatchlist, hnlen]
+    have hrem : s.toPool.rem = s.rem := rfl
+    have htot : s.toPool.tot = s.tot := rfl
+    rw [hrem, htot]
+    by_cases hgt : ((s.lst.filter (fun q => decide (q.2 = p.2))).map (·.1)).length > s.rem
+    · rw [if_pos hgt, if_pos hgt]
+      exact ⟨⟨rfl, List.Perm.refl _, rfl, Or.inr ⟨_, _, _, rfl, rfl, List.Perm.refl _⟩⟩, hs⟩
+    · rw [if_neg hgt, if_neg hgt]
+      set batch := (s.lst.filter (fun q => decide (q.2 = p.2))).map (·.1) with hbatch
+      set tot' := bumpAll s.tot batch with htot'
+      -- the list is A ++ B with B the batch entries
+      have hAB : s.lst = s.lst.filter (fun q => decide (q.2 ≠ p.2)) ++ s.lst.filter (fun q => decide (q.2 = p.2)) := by
+        conv => lhs; rw [hL, hsplit, ← hL]
+      have hBm : ∀ b ∈ s.lst.filter (fun q => decide (q.2 = p.2)), b.2 = p.2 :=
+        fun b hb => by simpa using (List.mem_filter.mp hb).2
+      have hsA : SortedAsc (s.lst.filter (fun q => decide (q.2 ≠ p.2))) := List.Pairwise.sublist List.filter_sublist hs
+      have hAle : ∀ a ∈ s.lst.filter (fun q => decide (q.2 ≠ p.2)), a.2 ≤ p.2 := by
+        intro a ha
+        have := (List.mem_filter.mp ha).1
+        rw [hL] at this; exact hmax a this
+      have hqB : ∀ b ∈ s.lst.filter (fun q => decide (q.2 = p.2)), cfg.quot b.1 (tot' b.1) ≤ p.2 := by
+        intro b hb
+        have hbl := (List.mem_filter.mp hb).1
+        have hbin : b.1 ∈ batch := List.mem_map.mpr ⟨b, hb, rfl⟩
+        have : tot' b.1 = s.tot b.1 + 1 := by rw [htot']; unfold bumpAll; rw [if_pos hbin]
+        rw [this]
+        have hbq := hq b hbl
+        rw [← hBm b hb, hbq]
+        exact quot_anti h _ _
+      have hspec := popLoop_spec cfg tot' p.2 _ _ _ rfl hBm hsA hAle hqB
+      rw [← hAB] at hspec
+      have hbl : batch.length = (s.lst.filter (fun q => decide (q.2 = p.2))).length := by rw [hbatch, List.length_map]
+      rw [hbl]
+      refine ⟨⟨rfl, ?_, rfl, Or.inl ⟨rfl, rfl⟩⟩, hspec.1⟩
+      exact hspec.2.symm
+
+theorem halLoop_refines (cfg : HACfg) (h : CfgOK cfg) :
+    ∀ (fuel : Nat) (sp : HAState) (sl : HALState), Inv cfg sp → PermState sp sl.toPool → SortedAsc sl.lst →
+      PermState (haLoop cfg fuel sp) (halLoop cfg fuel sl).toPool := by
+  intro fuel
+  induction fuel with
+  | zero => intro sp sl _ hp _; exact hp
+  | succ f ih =>
+    intro sp sl hi hp hs
+    unfold haLoop halLoop
+    have hc : (sp.rem = 0 ∨ sp.pool = []) ↔ (sl.rem = 0 ∨ sl.lst = []) := by
+      have hr : sp.rem = sl.rem := hp.rem
+      have hpl : sp.pool.Perm sl.lst := hp.pool
+      rw [hr]
+      constructor
+      · rintro (h0 | h0)
+        · exact Or.inl h0
+        · right; rw [h0] at hpl; exact hpl.symm.eq_nil
+      · rintro (h0 | h0)
+        · exact Or.inl h0
+        · right; rw [h0] at hpl; exact hpl.eq_nil
+    by_cases hcond : sp.rem = 0 ∨ sp.pool = []
+    · rw [if_pos hcond, if_pos (hc.mp hcond)]; exact hp
+    · rw [if_neg hcond, if_neg (fun hh => hcond (hc.mpr hh))]
+      have hrem : sp.rem ≠ 0 := fun h0 => hcond (Or.inl h0)
+      have hql : ∀ p ∈ sl.lst, p.2 = cfg.quot p.1 (sl.tot p.1) := by
+        intro p hpm
+        have : p ∈ sp.pool := hp.pool.mem_iff.mpr hpm
+        have htot : sp.tot = sl.tot := hp.tot
+        rw [← htot]; exact hi.pool_q p this
+      obtain ⟨hstep, hsort⟩ := halStep_refines cfg h sl hs hql
+      exact ih _ _ (haStep_inv cfg h sp hi hrem) (permState_trans (haStep_perm cfg _ _ hp) hstep) hsort
+
+theorem sortAsc_perm (l : Votes) : (sortAsc l).Perm l := by
+  have hins : ∀ (x : Cand × Rat) (l : Votes), (insertAsc x l).Perm (x :: l) := by
+    intro x l
+    induction l with
+    | nil => simp [insertAsc]
+    | cons y ys ih =>
+      unfold insertAsc
+      split
+      · exact (List.Perm.cons y ih).trans (List.Perm.swap x y ys)
+      · exact List.Perm.refl _
+  induction l with
+  | nil => simp [sortAsc]
+  | cons x xs ih => simp only [sortAsc]; exact (hins x _).trans (List.Perm.cons x ih)
+
+theorem sortAsc_sorted (l : Votes) : SortedAsc (sortAsc l) := by
+  have hinsP : ∀ (x : Cand × Rat) (l : Votes), (insertAsc x l).Perm (x :: l) := by
+    intro x l
+    induction l with
+    | nil => simp [insertAsc]
+    | cons y ys ih =>
+      unfold insertAsc
+      split
+      · exact (List.Perm.cons y ih).trans (List.Perm.swap x y ys)
+      · exact List.Perm.refl _
+  have hins : ∀ (x : Cand × Rat) (l : Votes), SortedAsc l → SortedAsc (insertAsc x l) := by
+    intro x l
+    induction l with
+    | nil => intro _; simp [insertAsc, SortedAsc]
+    | cons y ys ih =>
+      intro hs
+      have hy := List.pairwise_cons.mp hs
+      unfold insertAsc
+      split
+      · rename_i hlt
+        refine List.pairwise_cons.mpr ⟨?_, ih hy.2⟩
+        intro z hz
+        rcases List.mem_cons.mp ((hinsP x ys).mem_iff.mp hz) with rfl | hz'
+        · exact le_of_lt hlt
+        · exact hy.1 z hz'
+      · rename_i hnlt
+        refine List.pairwise_cons.mpr ⟨?_, hs⟩
+        intro z hz
+        rcases List.mem_cons.mp hz with rfl | hz'
+        · exact not_lt.mp hnlt
+        · exact le_trans (not_lt.mp hnlt) (hy.1 z hz')
+  induction l with
+  | nil => simp [sortAsc, SortedAsc]
+  | cons x xs ih => exact hins x _ ih
+
+/-- **Refinement.**  The sorted-list machine and the pool machine end in the same totals, the same seats left, and the
+    same tie up to the order of its members. -/
+theorem halRun_refines (cfg : HACfg) (h : CfgOK cfg) : PermState (haRun cfg) (halRun cfg).toPool := by
+  unfold haRun halRun
+  have hrem : (halInit cfg).rem = (haInit cfg).rem := rfl
+  rw [hrem]
+  apply halLoop_refines cfg h _ _ _ (haInit_inv cfg h)
+  · exact ⟨rfl, (sortAsc_perm _).symm, rfl, Or.inl ⟨rfl, rfl⟩⟩
+  · exact sortAsc_sorted _
+
+theorem halSeats_eq (cfg : HACfg) (h : CfgOK cfg) (c : Cand) :
+    (halRun cfg).tot c - cfg.prevOf c = haSeats cfg c := by
+  have := (halRun_refines cfg h).tot
+  unfold haSeats
+  rw [this]; rfl
+
 end VL
